@@ -4,6 +4,7 @@ import (
 	"errors"
 	"fmt"
 	"os"
+	"path/filepath"
 	"strings"
 	"sync"
 
@@ -20,6 +21,10 @@ import (
 // being produced by a memstore flush or by a compaction cycle fails at a chosen position (injected through the
 // tag-guarded writer hook). Oracle only (no Lean model at this level): the operation must report the failure, a
 // failed compaction must leave the live tables and every read unchanged, and the directory must stay recoverable.
+// A failing close is the failing final flush of the writer's buffer: the file on disk stays short (header only, or a
+// generated prefix). After every fault that was hit during a compaction cycle the database is closed and opened again
+// with the real Open(): it must open and read as before (an incomplete output is never installed, not by the next
+// recovery either).
 
 var errInjected = errors.New("injected write fault")
 
@@ -27,9 +32,54 @@ type faultPlan struct {
 	target string // "data" or "index"
 	op     string // "write" or "close"
 	n      int    // fail the n-th such call (0-based)
-	hit    bool
-	mu     sync.Mutex
-	seen   int
+	// a failing close leaves a short file: keepPct < 0 keeps the 8-byte file header only (nothing of the buffer reached
+	// the disk), otherwise that percentage of the bytes behind the header is kept
+	keepPct int
+	hit     bool
+	mu      sync.Mutex
+	seen    int
+	short   string // what the failing close left on disk
+}
+
+const rioFileHeaderLen = 8
+
+// the final flush failed: the file keeps only a prefix of what a successful close leaves
+func (p *faultPlan) shorten(path string) {
+	st, err := os.Stat(path)
+	if err != nil {
+		p.short = "stat failed: " + err.Error()
+		return
+	}
+	size := st.Size()
+	keep := size
+	if size > rioFileHeaderLen {
+		keep = rioFileHeaderLen
+		if p.keepPct >= 0 {
+			keep += (size - rioFileHeaderLen) * int64(p.keepPct) / 100
+		}
+	}
+	if keep >= size && size > 0 {
+		keep = size - 1
+	}
+	if err := os.Truncate(path, keep); err != nil {
+		p.short = "truncate failed: " + err.Error()
+		return
+	}
+	p.short = fmt.Sprintf("%s keeps %d of %d bytes", filepath.Base(path), keep, size)
+}
+
+func (p *faultPlan) shortClass() string {
+	if p.keepPct < 0 {
+		return "header-only"
+	}
+	return "generated-prefix"
+}
+
+func genKeepPct(r *Rng) int {
+	if r.Chance(50) {
+		return -1
+	}
+	return r.Intn(100)
 }
 
 func (p *faultPlan) should(target, op string) bool {
@@ -50,6 +100,7 @@ func (p *faultPlan) should(target, op string) bool {
 type faultDataWriter struct {
 	recordio.WriterI
 	plan *faultPlan
+	path string
 }
 
 func (w *faultDataWriter) Write(b []byte) (uint64, error) {
@@ -61,6 +112,7 @@ func (w *faultDataWriter) Write(b []byte) (uint64, error) {
 func (w *faultDataWriter) Close() error {
 	err := w.WriterI.Close()
 	if w.plan.should("data", "close") {
+		w.plan.shorten(w.path)
 		return errors.Join(err, errInjected)
 	}
 	return err
@@ -69,6 +121,7 @@ func (w *faultDataWriter) Close() error {
 type faultIndexWriter struct {
 	rProto.WriterI
 	plan *faultPlan
+	path string
 }
 
 func (w *faultIndexWriter) Write(m proto.Message) (uint64, error) {
@@ -80,6 +133,7 @@ func (w *faultIndexWriter) Write(m proto.Message) (uint64, error) {
 func (w *faultIndexWriter) Close() error {
 	err := w.WriterI.Close()
 	if w.plan.should("index", "close") {
+		w.plan.shorten(w.path)
 		return errors.Join(err, errInjected)
 	}
 	return err
@@ -88,8 +142,12 @@ func (w *faultIndexWriter) Close() error {
 func withFault(plan *faultPlan, f func() error) error {
 	sstables.VerifWriterWrap = func(w *sstables.SSTableStreamWriter) {
 		w.VerifWrapWriters(
-			func(d recordio.WriterI) recordio.WriterI { return &faultDataWriter{d, plan} },
-			func(i rProto.WriterI) rProto.WriterI { return &faultIndexWriter{i, plan} })
+			func(d recordio.WriterI) recordio.WriterI {
+				return &faultDataWriter{d, plan, filepath.Join(w.VerifBasePath(), sstables.DataFileName)}
+			},
+			func(i rProto.WriterI) rProto.WriterI {
+				return &faultIndexWriter{i, plan, filepath.Join(w.VerifBasePath(), sstables.IndexFileName)}
+			})
 	}
 	defer func() { sstables.VerifWriterWrap = nil }()
 	return safely(f)
@@ -97,7 +155,8 @@ func withFault(plan *faultPlan, f func() error) error {
 
 func runDbFault(res *Result, _ *Driver, seed uint64, n int, tier string, only int) error {
 	res.Rule = "memstores (1..12 entries incl. tombstones) flushed with both variants and 3..5-table databases compacted once, with one injected failure at " +
-		"every position of {data,index} x {write,close}; one evaluation = one faulted operation; non-trivial = the fault position was reached; " +
+		"every position of {data,index} x {write,close} (a failing close leaves the file short: header only or a generated prefix); the database is " +
+		"closed and re-opened with the real Open() after every compaction fault that was hit; one evaluation = one faulted operation or one restart; non-trivial = the fault position was reached; " +
 		"distinct = distinct (case, target, op, position)"
 	for idx := 0; idx < n; idx++ {
 		if only >= 0 && idx != only {
@@ -105,17 +164,20 @@ func runDbFault(res *Result, _ *Driver, seed uint64, n int, tier string, only in
 		}
 		r := NewRng(seed, uint64(idx))
 		res.Cases++
-		if err := dbFaultFlush(res, r, idx); err != nil {
+		// what a failing close leaves on disk is drawn from a second generator state (the memstores and databases stay
+		// what they were)
+		r2 := NewRng(seed^0xc105ef1a, uint64(idx))
+		if err := dbFaultFlush(res, r, r2, idx); err != nil {
 			return err
 		}
-		if err := dbFaultCompaction(res, r, idx); err != nil {
+		if err := dbFaultCompaction(res, r, r2, idx); err != nil {
 			return err
 		}
 	}
 	return nil
 }
 
-func dbFaultFlush(res *Result, r *Rng, idx int) error {
+func dbFaultFlush(res *Result, r, r2 *Rng, idx int) error {
 	nkeys := 1 + r.Intn(12)
 	type kv struct {
 		k, v []byte
@@ -149,7 +211,7 @@ func dbFaultFlush(res *Result, r *Rng, idx int) error {
 					if err != nil {
 						return err
 					}
-					plan := &faultPlan{target: target, op: op, n: pos}
+					plan := &faultPlan{target: target, op: op, n: pos, keepPct: genKeepPct(r2)}
 					m := build()
 					ferr := withFault(plan, func() error {
 						if withTomb {
@@ -160,6 +222,10 @@ func dbFaultFlush(res *Result, r *Rng, idx int) error {
 					_ = os.RemoveAll(dir)
 					res.Evaluations++
 					cs := fmt.Sprintf("%s withTombstones=%v fault=%s/%s#%d", desc, withTomb, target, op, pos)
+					if plan.hit && op == "close" {
+						cs += " (" + plan.short + ")"
+						res.Stat("flush:close-fault-leaves:" + plan.shortClass())
+					}
 					if plan.hit {
 						res.NoteNontrivial(fmt.Sprintf("%d/%s", idx, cs))
 						res.Stat("flush:fault-hit:" + target + "-" + op)
@@ -179,7 +245,7 @@ func dbFaultFlush(res *Result, r *Rng, idx int) error {
 	return nil
 }
 
-func dbFaultCompaction(res *Result, r *Rng, idx int) error {
+func dbFaultCompaction(res *Result, r, r2 *Rng, idx int) error {
 	keys := []string{"a", "b", "c", "d", "e"}
 	type built struct {
 		dir  string
@@ -207,7 +273,7 @@ func dbFaultCompaction(res *Result, r *Rng, idx int) error {
 		}
 		return strings.Join(parts, ",")
 	}
-	build := func() (*built, error) {
+	buildWith := func(r *Rng, delPct int) (*built, error) {
 		dir, err := os.MkdirTemp("", "verif-dbfault-db-")
 		if err != nil {
 			return nil, err
@@ -222,7 +288,7 @@ func dbFaultCompaction(res *Result, r *Rng, idx int) error {
 			cnt := 1 + r.Intn(4)
 			for i := 0; i < cnt; i++ {
 				k := keys[r.Intn(len(keys))]
-				if r.Chance(20) {
+				if r.Chance(delPct) {
 					_ = db.Delete(k)
 					delete(ref, k)
 				} else {
@@ -251,6 +317,7 @@ func dbFaultCompaction(res *Result, r *Rng, idx int) error {
 		}
 		return b, nil
 	}
+	build := func() (*built, error) { return buildWith(r, 20) }
 	b, err := build()
 	if err != nil {
 		return err
@@ -273,9 +340,45 @@ func dbFaultCompaction(res *Result, r *Rng, idx int) error {
 		}
 		plans = append(plans, plan{target, "close", 0})
 	}
+	// the database is closed and opened again with the real Open(); false: it did not come back as it was and was
+	// replaced by a fresh one
+	restart := func(after, cs string) (bool, error) {
+		res.Evaluations++
+		res.Stat("compaction:restart-after:" + after)
+		namesBefore, _, _, _ := b.db.VerifTables()
+		bad := false
+		if err := b.db.Close(); err != nil {
+			res.Violate(idx, "C11", "compaction:close-failed-after-"+after, err.Error(), cs)
+			bad = true
+		} else if db, err := open(b.dir); err != nil {
+			res.Violate(idx, "C11", "compaction:reopen-failed-after-"+after, "Open() after a restart: "+err.Error(), cs)
+			bad = true
+		} else {
+			b.db = db
+			namesAfter, _, _, _ := db.VerifTables()
+			if strings.Join(namesAfter, ",") != strings.Join(namesBefore, ",") {
+				res.Violate(idx, "C11", "compaction:tables-changed-by-restart-after-"+after, fmt.Sprintf("tables %v -> %v over a restart", namesBefore, namesAfter), cs)
+				bad = true
+			}
+			if got := readAll(db); got != b.want {
+				res.Violate(idx, "C11", "compaction:reads-changed-by-restart-after-"+after, "want "+b.want+" got "+got, cs)
+				bad = true
+			}
+			if bad {
+				_ = db.Close()
+			}
+		}
+		if !bad {
+			return true, nil
+		}
+		_ = os.RemoveAll(b.dir)
+		var err error
+		b, err = build()
+		return false, err
+	}
 	for _, pl := range plans {
 		namesBefore, _, _, _ := b.db.VerifTables()
-		fp := &faultPlan{target: pl.target, op: pl.op, n: pl.pos}
+		fp := &faultPlan{target: pl.target, op: pl.op, n: pl.pos, keepPct: genKeepPct(r2)}
 		var sel []string
 		cerr := withFault(fp, func() error {
 			var e error
@@ -302,6 +405,10 @@ func dbFaultCompaction(res *Result, r *Rng, idx int) error {
 			}
 			continue
 		}
+		if pl.op == "close" {
+			cs += " (" + fp.short + ")"
+			res.Stat("compaction:close-fault-leaves:" + fp.shortClass())
+		}
 		res.NoteNontrivial(fmt.Sprintf("%d/%s", idx, cs))
 		res.Stat("compaction:fault-hit:" + pl.target + "-" + pl.op)
 		if cerr == nil {
@@ -321,30 +428,122 @@ func dbFaultCompaction(res *Result, r *Rng, idx int) error {
 			if b, err = build(); err != nil {
 				return err
 			}
+			continue
+		}
+		// the failed cycle was reported; what it left behind must not be installed by the next recovery either
+		if _, err := restart(pl.target+"-"+pl.op+"-fault", cs); err != nil {
+			return err
 		}
 	}
-	// the leftovers of the failed cycles must not harm a restart, and a healthy cycle must still work
+	// after all the failed cycles and restarts a healthy cycle must still work, and survive a restart
+	res.Evaluations++
+	if _, _, err := b.db.VerifCompactOnce(); err != nil {
+		res.Violate(idx, "C11", "compaction:healthy-cycle-failed", err.Error(), b.desc)
+	}
+	if got := readAll(b.db); got != b.want {
+		res.Violate(idx, "C11", "compaction:reads-changed", "want "+b.want+" got "+got, b.desc)
+	}
+	if _, err := restart("healthy-cycle", b.desc); err != nil {
+		return err
+	}
+
+	// ---- an input table lost the tail of its data file while the database was down: its last record, a tombstone
+	// (stored checksum 0, no payload), is gone. Whether such a table is accepted by Open() is not judged here (Stat
+	// only). If it is, a compaction cycle over it either reports an error and changes nothing, or it has delivered
+	// every record the table's index announces - which it cannot have, so success is a violation.
+	_ = b.db.Close()
+	_ = os.RemoveAll(b.dir)
+	if b, err = buildWith(r2, 40); err != nil {
+		return err
+	}
 	if err := b.db.Close(); err != nil {
-		res.Violate(idx, "C11", "compaction:close-failed-after-fault", err.Error(), b.desc)
+		return err
+	}
+	ents, err := os.ReadDir(b.dir)
+	if err != nil {
+		return err
+	}
+	type lostCand struct {
+		name string
+		off  int64
+		recs int
+	}
+	var cands []lostCand
+	for _, e := range ents {
+		if !e.IsDir() || !strings.HasPrefix(e.Name(), simpledb.SSTablePrefix+"_") || strings.HasPrefix(e.Name(), simpledb.SSTableCompactionPathPrefix) {
+			continue
+		}
+		l, err := mgDataLayout(filepath.Join(b.dir, e.Name()))
+		if err != nil {
+			return fmt.Errorf("layout of %s: %w", e.Name(), err)
+		}
+		if last := len(l.offs) - 1; last >= 0 && l.end(last) == l.offs[last]+l.hdr[last] {
+			cands = append(cands, lostCand{e.Name(), l.offs[last], len(l.offs)})
+		}
+	}
+	reopen := func() error {
+		db, err := open(b.dir)
+		if err != nil {
+			return err
+		}
+		b.db = db
 		return nil
 	}
-	db, err := open(b.dir)
-	res.Evaluations++
-	if err != nil {
-		res.Violate(idx, "C11", "compaction:reopen-failed-after-fault", err.Error(), b.desc)
+	if len(cands) == 0 {
+		res.Stat("lost-tail:no-table-ends-with-a-tombstone")
+		return reopen()
+	}
+	lc := cands[r2.Intn(len(cands))]
+	if err := os.Truncate(filepath.Join(b.dir, lc.name, sstables.DataFileName), lc.off); err != nil {
+		return err
+	}
+	cs := fmt.Sprintf("%s; data.rio of %s ends at byte %d, before the last of its %d records (a tombstone)", b.desc, lc.name, lc.off, lc.recs)
+	if err := reopen(); err != nil {
+		res.Stat("lost-tail:open-rejected")
 		_ = os.RemoveAll(b.dir)
 		b = nil
 		return nil
 	}
-	b.db = db
-	if got := readAll(db); got != b.want {
-		res.Violate(idx, "C11", "compaction:reads-changed-after-restart", "want "+b.want+" got "+got, b.desc)
+	res.Stat("lost-tail:open-accepted")
+	base := readAll(b.db)
+	if base == b.want {
+		res.Stat("lost-tail:reads-as-before-the-loss")
+	} else {
+		res.Stat("lost-tail:reads-differ-after-the-loss(not judged)")
 	}
-	if _, _, err := db.VerifCompactOnce(); err != nil {
-		res.Violate(idx, "C11", "compaction:healthy-cycle-failed", err.Error(), b.desc)
+	b.want = base
+	namesBefore, _, _, _ := b.db.VerifTables()
+	var sel []string
+	cerr := safely(func() error {
+		var e error
+		sel, _, e = b.db.VerifCompactOnce()
+		return e
+	})
+	res.Evaluations++
+	selected := false
+	for _, n := range sel {
+		selected = selected || n == lc.name
 	}
-	if got := readAll(db); got != b.want {
-		res.Violate(idx, "C11", "compaction:reads-changed", "want "+b.want+" got "+got, b.desc)
+	switch {
+	case cerr != nil:
+		res.Stat("lost-tail:compaction-reported:" + errKind(cerr))
+		namesAfter, _, _, _ := b.db.VerifTables()
+		if strings.Join(namesAfter, ",") != strings.Join(namesBefore, ",") {
+			res.Violate(idx, "C11", "compaction:incomplete-output-installed:input-data-tail-lost", fmt.Sprintf("tables %v -> %v after a failed cycle", namesBefore, namesAfter), cs)
+		}
+	case selected:
+		res.Violate(idx, "C11", "compaction:input-data-tail-lost-before-open:empty-value-tail",
+			fmt.Sprintf("the cycle over %v reported success although the data file of %s ends before its last record", sel, lc.name), cs)
+	default:
+		res.Stat("lost-tail:table-not-selected")
+	}
+	if got := readAll(b.db); got != base {
+		res.Violate(idx, "C11", "compaction:reads-changed:input-data-tail-lost", "want "+base+" got "+got, cs)
+	}
+	if cerr != nil {
+		if _, err := restart("input-data-tail-lost", cs); err != nil {
+			return err
+		}
 	}
 	return nil
 }
